@@ -20,7 +20,7 @@ func TestVerif_C12_Namespaces(t *testing.T) {
 	r := kit.NewResult(t, "c12-namespaces", seed,
 		"for every generated world: every token (root-policy token of each namespace, tokens holding a namespace-wide policy, a single-mount policy, a policy that names a child namespace, a '+' segment policy; all without the default policy) x every namespace x its recording mounts x {update, read, list} x every spelling of the namespace (header, path, split, 'root' header) is sent through Core.HandleRequest; the reference authoriser (request namespace must be the token's namespace or a descendant AND a namespace-qualified policy path must match; nothing is served while the namespace of the request or of the token is sealed) predicts whether the backend handler may run; arbitrary header/path combinations (unknown, prefix-related, traversal-carrying, doubled namespace parts) are resolved by a reference resolver and must be served by exactly the mount it names; tokens whose only policy source is identity-group membership are checked against the default group-policy application mode; then each sealable namespace is sealed in turn, the matrix is repeated for it and the physical log must show no key of the sealed subtree, and after unsealing the earlier data must be back behind the same confinement; a cell is non-trivial when token namespace and request namespace differ or a seal is involved")
 	defer r.Write(t)
-	topos := kit.N(5, 120)
+	topos := kit.N(5, 240)
 	for ti := 0; ti < topos; ti++ {
 		if ti%shards != shard {
 			continue
@@ -30,7 +30,7 @@ func TestVerif_C12_Namespaces(t *testing.T) {
 			continue
 		}
 		rng := kit.NewRand(seed, 0x12100+uint64(ti))
-		c12NSCase(t, r, rng, caseID, ti%2 == 1)
+		c12NSCase(t, r, rng, caseID, (ti+ti/8)%2 == 1)
 		if r.NViolations() > 30 {
 			break
 		}
